@@ -60,13 +60,21 @@ def gen_plan(seed, index, tier):
         # continuous targets in [0,1] on a coarse lattice (ties for the median peer)
         rows = [(r[0], r[1], rng.choice([0.0, 0.25, 0.5, 0.75, 1.0, round(rng.random(), 3)])) for r in rows]
     bound_kind = rng.choice(["diff", "ratio"])
+    aligned = (not kind.startswith("BGL")) and rng.random() < 0.04
+    if aligned:
+        # labels perfectly aligned with two equally sized groups: a multiplier of magnitude 1 then cancels
+        # every signed weight exactly (all-zero sample weights for that grid point)
+        half = rng.randint(3, 8)
+        rows = [(rng.randint(0, 2), 0, 1) for _ in range(half)] + [(rng.randint(0, 2), 1, 0) for _ in range(half)]
+        rng.shuffle(rows)
+        kind, bound_kind = "DP", "diff"
     vals = sorted({r[0] for r in rows})
     nq = rng.randint(1, 10)
     plan = {
         "v": 1, "rows": rows, "moment": kind, "bound_kind": bound_kind,
         "bound": rng.choice([0.0, 0.01, 0.05, 0.1]), "ratio": 1.0 if bound_kind == "diff" else rng.choice([0.5, 0.8, 0.9, 1.0]),
-        "grid_size": rng.choice([2, 3, 4, 5, 7, 10, 13, 20, 31, 45, 60]),
-        "grid_limit": rng.choice([0.5, 1.0, 2.0, 3.7, 10.0]),
+        "grid_size": rng.choice([3, 5]) if aligned else rng.choice([2, 3, 4, 5, 7, 10, 13, 20, 31, 45, 60]),
+        "grid_limit": rng.choice([1.0, 2.0]) if aligned else rng.choice([0.5, 1.0, 2.0, 3.7, 10.0]),
         "cw": rng.choice([0.0, 0.25, 0.5, 0.5, 1.0]),
         "xq": [rng.choice(vals + [99]) for _ in range(nq)],
         "xform": rng.choice(["df", "nd", "df2"]),
@@ -218,6 +226,8 @@ def execute(plan, ctx):
             y_ref = (w_signed > 0).astype(float)
             nz = w_ref > 1e-12
             const = len(np.unique(y_ref[nz])) <= 1
+            if not nz.any():
+                ctx.probe("grid_point_with_all_zero_weights")
         entry = by_obj.get(id(pred_obj))
         if entry is None:
             # no peer request for this column: legitimate only for a constant relabelling
